@@ -217,6 +217,35 @@ def chord_display_model(src, file, fnitem):
         return {x["name"] for x in find_all(p, lambda n: n.get("k") == "ident")}
 
     kvars, steps, loops = set(), [], 0
+    # `Some((first, rest)) = CHAIN.split_first()` / `Some((last, init)) = CHAIN.split_last()` in a let-else / if-let / match arm:
+    # one element variable plus an alias of the remaining keys; both must be written, in slice order
+    order = {id(n): i for i, n in enumerate(find_all(fnitem, lambda n: True))}
+    splits = []
+
+    def split_pattern(p, scrut):
+        scrut = unref(scrut)
+        if not (p is not None and p.get("k") == "tstruct" and p["path"].split("::")[-1] == "Some" and len(p["elems"]) == 1 and p["elems"][0].get("k") == "tuple"
+                and len(p["elems"][0]["elems"]) == 2 and all(x.get("k") == "ident" and not x.get("sub") for x in p["elems"][0]["elems"])):
+            return
+        if scrut is None or scrut.get("k") != "mcall" or scrut["m"] not in ("split_first", "split_last") or scrut["args"]:
+            return
+        ms = keys_chain(scrut["recv"])
+        if ms is None:
+            return
+        one, many = (x["name"] for x in p["elems"][0]["elems"])
+        steps.extend(ms)
+        kvars.add(one)
+        lets.setdefault(many, []).append(scrut["recv"])
+        splits.append({"one": one, "many": many, "first": scrut["m"] == "split_first"})
+    for n in find_all(fnitem, lambda n: n.get("k") in ("let", "letcond", "match")):
+        if n["k"] == "let" and n.get("init") is not None:
+            split_pattern(n.get("pat"), n["init"])
+        elif n["k"] == "letcond":
+            split_pattern(n.get("pat"), n["e"])
+        elif n["k"] == "match":
+            for arm in n["arms"]:
+                split_pattern(arm["pat"], n["e"])
+    loop_of = {}     # alias name -> pre-order position of the loop that iterates it
     for n in find_all(fnitem, lambda n: n.get("k") == "for"):
         ms = keys_chain(n["iter"])
         if ms is None:
@@ -224,10 +253,16 @@ def chord_display_model(src, file, fnitem):
         kvars |= idents(n["pat"])
         steps += ms
         loops += 1
+        r_it = chain(unref(n["iter"]))[0]
+        if is_path(r_it):
+            loop_of.setdefault(r_it["p"], order[id(n)])
     for n in find_all(fnitem, lambda n: n.get("k") == "mcall" and n["m"] in KEY_ITER_SINKS and n["args"] and n["args"][0].get("k") == "closure"):
         ms = keys_chain(n["recv"])
         if ms is None:
             continue
+        r_it = chain(unref(n["recv"]))[0]
+        if is_path(r_it):
+            loop_of.setdefault(r_it["p"], order[id(n)])
         for prm in n["args"][0]["params"]:
             kvars |= idents(prm)
         steps += ms
@@ -240,13 +275,21 @@ def chord_display_model(src, file, fnitem):
         steps += ms[:-1]
         loops += 1 if any(w.get("cond") is n for w in find_all(fnitem, lambda x: x.get("k") == "while")) else 0
     seps, key_t = [], 0
+    written = {}
     for node, tpl in templates_deep(src, file, fnitem):
         if all(x[0] == "lit" for x in tpl):
             seps.append("".join(x[1] for x in tpl))
         elif len(tpl) == 1 and tpl[0][0] == "hole" and is_path(unref(tpl[0][1])) and unref(tpl[0][1])["p"] in kvars and tpl[0][2] in ("", "?"):
             key_t += 1
+            written.setdefault(unref(tpl[0][1])["p"], order.get(id(node)))
         else:
             raise NotUnderstood("KeyChord Display template %s" % (tpl,))
+    for sp in splits:
+        w, lpos = written.get(sp["one"]), loop_of.get(sp["many"])
+        if w is None or lpos is None:
+            raise NotUnderstood("KeyChord Display splits the keys into %s / %s but does not write both" % (sp["one"], sp["many"]))
+        if (w < lpos) != sp["first"]:
+            steps.append("split-out-of-order")
     return {"seps": seps, "key_templates": key_t, "steps": steps, "loops": loops}
 
 
@@ -487,6 +530,206 @@ def first_match(node, pred):
 
 
 # ------------------------------------------------------------------------------------------------
+# Key::from_str: attribute -> modifier flag table, wherever it is written
+# ------------------------------------------------------------------------------------------------
+STR_NORMALISERS = {"to_lowercase", "to_ascii_lowercase", "as_ref", "as_str", "trim", "borrow", "deref", "to_string", "to_owned", "clone"}
+
+
+def block_lets(node):
+    """name -> [let nodes] for the simple `let name = init;` bindings below node"""
+    lets = {}
+    for n in find_all(node, lambda n: n.get("k") == "let" and (n.get("pat") or {}).get("k") == "ident" and n.get("init") and not n.get("else")):
+        lets.setdefault(n["pat"]["name"], []).append(n)
+    return lets
+
+
+def alias_chain(e, lets, used=()):
+    """chain(e) with `let` aliases substituted (a shadowing `let attr = attr.to_lowercase();` is followed once): (root, [methods])"""
+    r, ms = chain(unref(e))
+    if is_path(r):
+        cand = [l for l in lets.get(r["p"], []) if id(l) not in used and l.get("line", 0) <= e.get("line", 1 << 30)]
+        if len(cand) == 1:
+            r2, ms2 = alias_chain(cand[0]["init"], lets, used + (id(cand[0]),))
+            return r2, ms2 + ms
+        if len(cand) > 1:
+            raise NotUnderstood("several bindings of %s" % r["p"])
+    return r, ms
+
+
+def single_expr(b):
+    """the one expression of `expr` / `{ expr }` / `{ expr; }`, else None"""
+    while b is not None and b.get("k") == "block":
+        st = [x for x in b["stmts"]]
+        if len(st) != 1 or st[0]["k"] != "expr":
+            return None
+        b = st[0]["e"]
+    return b
+
+
+def or_into(b):
+    """`acc |= X` / `acc = acc | X` / `acc = X | acc` / `acc.insert(X)` -> (acc name, X path) else None"""
+    b = single_expr(b)
+    if b is None:
+        return None
+    if b.get("k") == "bin" and b["op"] == "|=" and is_path(b["l"]) and is_path(b["r"]):
+        return b["l"]["p"], b["r"]["p"]
+    if b.get("k") == "assign" and is_path(b["l"]) and b["r"].get("k") == "bin" and b["r"]["op"] == "|":
+        l, r = b["r"]["l"], b["r"]["r"]
+        if is_path(l, b["l"]["p"]) and is_path(r):
+            return b["l"]["p"], r["p"]
+        if is_path(r, b["l"]["p"]) and is_path(l):
+            return b["l"]["p"], l["p"]
+    if b.get("k") == "mcall" and b["m"] == "insert" and is_path(b["recv"]) and len(b["args"]) == 1 and is_path(b["args"][0]):
+        return b["recv"]["p"], b["args"][0]["p"]
+    return None
+
+
+def is_none_exit(e, allow_value=True):
+    e = single_expr(e)
+    if e is None:
+        return False
+    if e.get("k") == "return" and e.get("e") is not None and is_path(e["e"], "None"):
+        return True
+    return allow_value and is_path(e, "None")
+
+
+def string_flag_table(helper, pname):
+    """private helper `fn(.., name: &str, ..) -> Option<Flag>` written as a match on the (normalised) string:
+    `Some(match name { "a" => F::A, .., _ => return None })` or `match name { "a" => Some(F::A), .., _ => None }`.
+    Returns ({name: (flag const, line)}, lowered-inside)."""
+    e = tail(helper["body"])
+    if e is not None and e.get("k") == "return":
+        e = e.get("e")
+    wrapped = False
+    if e is not None and e.get("k") == "call" and is_path(e["f"], "Some") and len(e["args"]) == 1:
+        wrapped, e = True, single_expr(e["args"][0])
+    if e is None or e.get("k") != "match":
+        raise NotUnderstood("helper %s is not a match on its string argument" % helper["name"])
+    r, ms = alias_chain(e["e"], block_lets(helper["body"]))
+    if not is_path(r, pname) or not set(ms) <= STR_NORMALISERS:
+        raise NotUnderstood("helper %s matches on %s" % (helper["name"], expr_text(e["e"])))
+    tab = {}
+    closed = False
+    for arm in e["arms"]:
+        strs = pat_strings(arm["pat"])
+        if strs is not None and arm["guard"] is None:
+            v = single_expr(arm["body"])
+            if not wrapped:
+                if v is not None and v.get("k") == "return":
+                    v = v.get("e")
+                v = v["args"][0] if v is not None and v.get("k") == "call" and is_path(v["f"], "Some") and len(v["args"]) == 1 else None
+            if not is_path(v):
+                raise NotUnderstood("helper %s: value of arm %s" % (helper["name"], pat_text(arm["pat"])))
+            for s in strs:
+                tab.setdefault(s, (v["p"].split("::")[-1], arm["line"]))
+        elif arm["pat"]["k"] in ("wild", "ident") and arm["guard"] is None and is_none_exit(arm["body"], allow_value=not wrapped):
+            closed = True
+            break
+        else:
+            raise NotUnderstood("helper %s: arm %s" % (helper["name"], pat_text(arm["pat"])))
+    if not closed:
+        raise NotUnderstood("helper %s has no `_ => None` arm" % helper["name"])
+    return tab, bool({"to_lowercase", "to_ascii_lowercase"} & set(ms))
+
+
+def modifier_dispatch(src, file, lp, avar):
+    """The modifier table of the attribute loop of Key::from_str, decided on what it maps and not on where it is written:
+    (A) `match <attr chain> { "name" => acc |= FLAG, .., other => <key name> }`, or (B) a same-file helper
+    `fn(&str) -> Option<KeyMod>` holding the string match, consumed by `match helper(<attr chain>) { Some(f) => acc |= f, None => <key name> }`,
+    `if let Some(f) = helper(..) { acc |= f } else { <key name> }` or `if let Some(f) = helper(..) { acc |= f; continue; } <key name>`.
+    <attr chain> may go through `let` aliases.  Returns (lowered, {name: (flag, line, acc)}, key-name arm)."""
+    body = lp["body"]
+    lets = block_lets(body)
+
+    def attr_chain(e):
+        r, ms = alias_chain(e, lets)
+        if is_path(r, avar) and set(ms) <= STR_NORMALISERS:
+            return ms
+        return None
+
+    # ---- (A) direct match on the attribute
+    for m in find_all(body, lambda n: n.get("k") == "match"):
+        ms = attr_chain(m["e"])
+        if ms is None:
+            continue
+        mod_parse, key_default = {}, None
+        for arm in m["arms"]:
+            strs = pat_strings(arm["pat"])
+            if strs is not None:
+                acc = or_into(arm["body"])
+                if acc is None or arm["guard"] is not None:
+                    raise NotUnderstood("modifier arm body %s" % expr_text(arm["body"]))
+                for s in strs:
+                    mod_parse.setdefault(s, (acc[1].split("::")[-1], arm["line"], acc[0]))
+            elif arm["pat"]["k"] in ("ident", "wild") and arm["guard"] is None:
+                key_default = arm
+                break
+            else:
+                raise NotUnderstood("arm %s" % pat_text(arm["pat"]))
+        if key_default is None:
+            raise NotUnderstood("no key-name arm")
+        return bool({"to_lowercase", "to_ascii_lowercase"} & set(ms)), mod_parse, key_default
+
+    # ---- (B) Option-returning helper
+    def helper_call(e):
+        e = unref(e)
+        if e is None or e.get("k") != "call" or not is_path(e["f"]):
+            return None
+        name = e["f"]["p"].split("::")[-1]
+        cands = [it for (f, s, tr, it, t) in src.fns if f == file and not t and tr is None and it["name"] == name]
+        if len(cands) != 1:
+            return None
+        for i, a in enumerate(e["args"]):
+            ms = attr_chain(a)
+            if ms is not None:
+                inputs = [x for x in cands[0]["sig"]["inputs"] if isinstance(x, dict) and x.get("name") not in (None, "self")]
+                if i < len(inputs):
+                    tab, low = string_flag_table(cands[0], inputs[i]["name"])
+                    return tab, low or bool({"to_lowercase", "to_ascii_lowercase"} & set(ms))
+        return None
+
+    def some_binding(p):
+        if p.get("k") == "tstruct" and p["path"].split("::")[-1] == "Some" and len(p["elems"]) == 1 and p["elems"][0]["k"] == "ident" and not p["elems"][0].get("sub"):
+            return p["elems"][0]["name"]
+        return None
+
+    def finish(hc, var, some_body, default, line):
+        acc = or_into(some_body)
+        if acc is None:
+            # `{ acc |= f; continue; }`
+            if some_body.get("k") == "block" and len(some_body["stmts"]) == 2 and some_body["stmts"][1]["k"] == "expr" \
+                    and some_body["stmts"][1]["e"].get("k") == "continue" and some_body["stmts"][0]["k"] == "expr":
+                acc = or_into(some_body["stmts"][0]["e"])
+        if acc is None or acc[1] != var:
+            raise NotUnderstood("the Some arm of the modifier lookup does not accumulate the flag: %s" % expr_text(some_body))
+        tab, low = hc
+        return low, {s: (fl, ln, acc[0]) for s, (fl, ln) in tab.items()}, {"body": default, "line": line}
+
+    for m in find_all(body, lambda n: n.get("k") == "match"):
+        hc = helper_call(m["e"])
+        if hc is None:
+            continue
+        some = [a for a in m["arms"] if some_binding(a["pat"]) and a["guard"] is None]
+        rest = [a for a in m["arms"] if a not in some]
+        if len(some) != 1 or len(rest) != 1 or rest[0]["guard"] is not None or not (
+                rest[0]["pat"]["k"] == "wild" or (rest[0]["pat"]["k"] in ("path", "ident") and (rest[0]["pat"].get("p") or rest[0]["pat"].get("name")) == "None")):
+            raise NotUnderstood("match on the modifier lookup: arms %s" % [pat_text(a["pat"]) for a in m["arms"]])
+        return finish(hc, some_binding(some[0]["pat"]), some[0]["body"], rest[0]["body"], rest[0]["line"])
+    for n in find_all(body, lambda n: n.get("k") == "if" and n["cond"].get("k") == "letcond" and some_binding(n["cond"]["pat"])):
+        hc = helper_call(n["cond"]["e"])
+        if hc is None:
+            continue
+        if n.get("else") is not None:
+            return finish(hc, some_binding(n["cond"]["pat"]), n["then"], n["else"], n["line"])
+        # no else: the Some branch must `continue`, the rest of the loop body is the key-name case
+        st = n["then"].get("stmts", [])
+        if not st or st[-1]["k"] != "expr" or st[-1]["e"].get("k") != "continue":
+            raise NotUnderstood("if-let on the modifier lookup falls through into the key-name case")
+        return finish(hc, some_binding(n["cond"]["pat"]), n["then"], body, n["line"])
+    raise NotUnderstood("no match on the attribute")
+
+
+# ------------------------------------------------------------------------------------------------
 # KeyName tables
 # ------------------------------------------------------------------------------------------------
 def key_value(e, enum="KeyName"):
@@ -503,6 +746,69 @@ def key_value(e, enum="KeyName"):
         if is_path(a):
             return (e["f"]["p"].split("::")[-1].lower() + "-var", a["p"])
     return None
+
+
+def single_char_tuple_rows(body, names):
+    """`let mut it = S.chars(); match (it.next(), it.next()) { (Some(c @ CLASS), None) => KeyName::Char(c), .., _ => return Err(..) }`:
+    exactly the strings of one character, classified by CLASS — the meaning of `S.chars().count() == 1` +
+    `S.chars().next().unwrap()` + `match c`."""
+    if body.get("k") != "block":
+        raise NotUnderstood("catch-all arm is not an error exit")
+    lets = block_lets(body)
+    ms = [m for m in find_all(body, lambda n: n.get("k") == "match") if m["e"].get("k") == "tuple"]
+    if len(ms) != 1 or tail(body) is not ms[0]:
+        raise NotUnderstood("catch-all arm is neither an error exit nor a match on (it.next(), it.next())")
+    m = ms[0]
+    el = m["e"]["elems"]
+    if not (len(el) == 2 and all(x.get("k") == "mcall" and x["m"] == "next" and not x["args"] and is_path(x["recv"]) for x in el)
+            and el[0]["recv"]["p"] == el[1]["recv"]["p"]):
+        raise NotUnderstood("single-character arm: scrutinee %s" % expr_text(m["e"]))
+    it = el[0]["recv"]["p"]
+    its = lets.get(it, [])
+    if len(its) != 1 or chain(its[0]["init"])[1] != ["chars"] or chain(its[0]["init"])[0].get("p") not in names:
+        raise NotUnderstood("single-character arm: %s is not S.chars()" % it)
+    # nothing else may advance the iterator
+    if len(find_all(body, lambda n: is_path(n, it))) != 2:
+        raise NotUnderstood("single-character arm: the char iterator is used elsewhere")
+    rows, seen = [], set()
+    closed = False
+    for a2 in m["arms"]:
+        pt = a2["pat"]
+        if a2["guard"] is not None:
+            raise NotUnderstood("guarded arm %s" % pat_text(pt))
+        if pt["k"] in ("wild", "ident") and not pt.get("sub"):
+            if not is_err_exit(a2["body"]):
+                raise NotUnderstood("catch-all of the single-character match is not an error exit")
+            closed = True
+            break
+        if pt["k"] != "tuple" or len(pt["elems"]) != 2:
+            raise NotUnderstood("arm %s" % pat_text(pt))
+        p0, p1 = pt["elems"]
+        if is_err_exit(a2["body"]):
+            # a rejecting arm: only the chars it removes from later one-char arms matter
+            if p0["k"] == "tstruct" and p0["path"] == "Some" and len(p0["elems"]) == 1 and (p1["k"] == "wild" or (p1["k"] in ("ident", "path") and (p1.get("name") or p1.get("p")) == "None")):
+                cs = pat_chars(p0["elems"][0])
+                if cs is None:
+                    raise NotUnderstood("char class pattern %s" % pat_text(pt))
+                if cs == "ANY":
+                    closed = True
+                    break
+                seen |= cs
+            elif p0["k"] == "wild" and p1["k"] == "wild":
+                closed = True
+                break
+            continue
+        if not (p0["k"] == "tstruct" and p0["path"] == "Some" and len(p0["elems"]) == 1 and p1["k"] in ("ident", "path") and (p1.get("name") or p1.get("p")) == "None"):
+            raise NotUnderstood("arm %s yields a key for something else than a one-character string" % pat_text(pt))
+        cs = pat_chars(p0["elems"][0])
+        v = key_value(a2["body"])
+        if cs is None or cs == "ANY" or v is None or v[0] != "char-var" or v[1] not in pat_binding(p0["elems"][0]):
+            raise NotUnderstood("char class arm value %s" % pat_text(pt))
+        rows.append({"kind": "chars", "set": sorted(cs - seen), "pat": pat_text(p0["elems"][0]), "line": a2["line"]})
+        seen |= cs
+    if not closed:
+        raise NotUnderstood("single-character match has no rejecting catch-all")
+    return rows
 
 
 def parse_table_keyname(fn):
@@ -587,7 +893,9 @@ def parse_table_keyname(fn):
             raise NotUnderstood("guarded arm %s" % pat_text(p))
         if p["k"] in ("wild", "ident") and arm["guard"] is None:
             if not is_err_exit(arm["body"]):
-                raise NotUnderstood("catch-all arm is not an error exit")
+                # the single-character classes decided inside the catch-all arm (no count()/unwrap at all)
+                names = {param} | ({p["name"]} if p["k"] == "ident" else set())
+                rows.extend(single_char_tuple_rows(arm["body"], names))
             rows.append({"kind": "reject", "line": arm["line"]})
             break
         raise NotUnderstood("arm %s" % pat_text(p))
@@ -856,7 +1164,7 @@ def run(ctx):
     ctx.rule("MOD-ROUNDTRIP", "KeyMod Debug names vs Key::from_str modifier arms are inverse; flags single-bit, disjoint", floor=16)
     ctx.rule("SEPARATORS", "'+' / ' ' agree between Debug/Display and from_str, appear in no name; key and modifier names disjoint", floor=8)
     ctx.rule("SERDE-CHAIN", "KeyChord Serialize -> collect_str(Display) ; Deserialize -> FromStr ; Display impls delegate to the Debug tables", floor=7)
-    ctx.rule("PANIC-SITE", "every unwrap/expect/panic!/index site in the parsers is guarded by an accepted idiom (I1 chars().count()==1 / non-empty, I2 ASCII starts_with)", floor=3)  # 4 on the pinned tree; 3 once the expect() finding is fixed
+    ctx.rule("PANIC-SITE", "every unwrap/expect/panic!/index site in the parsers is guarded by an accepted idiom (I1 chars().count()==1 / non-empty, I2 ASCII starts_with)", floor=2)  # 4 on the pinned tree; 3 once the expect() finding is fixed; 2 when the single-character arm needs no unwrap (completeness is cross-checked against MIR)
 
     # =========================== KeyName tables ===================================================
     ptab = dtab = None
@@ -967,6 +1275,8 @@ def run(ctx):
     mod_sep = None
     mod_parse = None   # name -> flag const
     key_split = None
+    key_default = None
+    key_lower = False
     if mod_dbg is None or key_from is None:
         ctx.anchor("MOD-ROUNDTRIP", "KeyMod-Debug/Key::from_str")
     else:
@@ -1032,24 +1342,7 @@ def run(ctx):
                 raise NotUnderstood("Key::from_str does not iterate string.split(<char>)")
             key_split = chr(lp["iter"]["args"][0]["v"])
             avar = lp["pat"]["name"]
-            m = first_match(lp["body"], lambda n: chain(n["e"])[0].get("p") == avar)
-            if m is None:
-                raise NotUnderstood("no match on the attribute")
-            key_lower = "to_lowercase" in chain(m["e"])[1]
-            mod_parse = {}
-            key_default = None
-            for arm in m["arms"]:
-                strs = pat_strings(arm["pat"])
-                if strs is not None:
-                    b = arm["body"]
-                    if not (b.get("k") == "bin" and b["op"] == "|=" and is_path(b["l"]) and is_path(b["r"])):
-                        raise NotUnderstood("modifier arm body %s" % expr_text(b))
-                    for s in strs:
-                        mod_parse[s] = (b["r"]["p"].split("::")[-1], arm["line"], b["l"]["p"])
-                elif arm["pat"]["k"] == "ident":
-                    key_default = arm
-                else:
-                    raise NotUnderstood("arm %s" % pat_text(arm["pat"]))
+            key_lower, mod_parse, key_default = modifier_dispatch(src, KEYS, lp, avar)
             if key_default is None:
                 raise NotUnderstood("no key-name arm")
         except NotUnderstood as e:
@@ -1258,6 +1551,15 @@ def run(ctx):
             continue
         for n in find_all(it, lambda n: is_path(n) and re.fullmatch(r"(Key|KeyName|KeyChord|KeyMod|Self)::[a-z_]+", n["p"])):
             helper_names.add(n["p"].replace("Self::", nm.split("::")[0] + "::"))
+    # private free functions of keys.rs called from the scope (a table or a loop extracted into `fn helper(..)`), transitively
+    work = [it for _, it, _ in scope if it is not None]
+    while work:
+        cur = work.pop()
+        for n in find_all(cur, lambda n: n.get("k") == "call" and is_path(n["f"]) and "::" not in n["f"]["p"]):
+            for (f, s_, tr, it, t) in src.fns:
+                if f == KEYS and not t and s_ is None and tr is None and it["name"] == n["f"]["p"] and not any(it is x[1] for x in scope):
+                    scope.append((it["name"], it, r"^keys::%s$" % re.escape(it["name"])))
+                    work.append(it)
     for hp in sorted(helper_names):
         ty, name = hp.split("::")
         for (f, s, tr, it, t) in src.fns:
